@@ -1238,14 +1238,27 @@ fn gen_formulas<W: Write>(out: &mut W, thorough: bool, seed: u64, second: bool) 
 }
 
 pub fn gen_c01<W: Write>(out: &mut W, thorough: bool, seed: u64) {
-    gen_formulas(out, thorough, seed, false)
+    gen_formulas(out, thorough, seed, false);
+    // a power with base exactly 0 and an exponent 0, 1, 2, 3 (x^p is smooth there): the derivative coefficient
+    // p x^(p-1) must not become 0 * inf (repaired defect, known_findings.json)
+    writeln!(out, "dual 1 {} 2 x {} y {} 0", hf(0.0), hf(1.0), hf(-2.5)).unwrap();
+    for p in [0.0, 1.0, 2.0, 3.0] {
+        writeln!(out, "eval p{} L1", hf(p)).unwrap();
+        writeln!(out, "eval + Kh3ff8000000000000 p{} L1", hf(p)).unwrap();
+    }
+    writeln!(out, "reset").unwrap();
 }
 
 pub fn gen_c02<W: Write>(out: &mut W, thorough: bool, seed: u64) {
     gen_formulas(out, thorough, seed, true);
-    // probes at the excluded point of Dom2 (a power with base exactly 0): recorded finding
+    // probes at a power with base exactly 0 and exponent 0, 1, 2, 3 (x^p is smooth there): repaired defect
     writeln!(out, "dual2 1 {} 1 x {} {} 0", hf(0.0), hf(1.0), hf(0.0)).unwrap();
-    writeln!(out, "evalgrad2 p{} L1", hf(1.0)).unwrap();
-    writeln!(out, "evalgrad2 p{} L1", hf(2.0)).unwrap();
+    for p in [0.0, 1.0, 2.0, 3.0] {
+        writeln!(out, "evalgrad2 p{} L1", hf(p)).unwrap();
+    }
+    writeln!(out, "dual2 2 {} 2 x {} y {} {} {} {} {} 0", hf(0.0), hf(1.0), hf(-2.5), hf(0.5), hf(0.25), hf(0.25), hf(-1.0)).unwrap();
+    for p in [0.0, 1.0, 2.0, 3.0] {
+        writeln!(out, "evalgrad2 p{} L2", hf(p)).unwrap();
+    }
     writeln!(out, "reset").unwrap();
 }
